@@ -534,6 +534,10 @@ class RemoteWorker(Worker, metaclass=RemoteWorkerMeta):
             self._startup_sync.wait()
 
             # Receiving runtime info is a signal for us that everything is ok
+            ready = mp.connection.wait([self._comms.parent_end, self._child.sentinel])
+            if self._comms.parent_end not in ready:
+                # the child died before it could tell us anything, do not wait for it for ever (we keep the other end of the pipe open)
+                raise ConnectionClosedError('The backend process died while starting')
             runtime_info = self._comms.parent_end.recv()
             self._host, self._pid, self._tid, self._ident = runtime_info
             send_msg(self._ctrl_sock, runtime_info, comment='ctrl: runtime info')
